@@ -70,6 +70,10 @@ fn check_code<T: Code + PartialEq + Debug>(x: &T, fixed: bool, res: &mut ShardRe
         }
     }
     res.nontrivial_hashes.insert(fnv(format!("{tyname}{x:?}").as_bytes()));
+    if res.samples.len() < 2 && written > 1 {
+        res.sample(json!({"part":"code","type":tyname,"value":format!("{x:?}").chars().take(80).collect::<String>(),"encoded_bytes":written,"estimated_size":est,
+            "truncated_destinations_tried": (0..written).filter(|s| *s < limit || *s + 3 >= written || s % 997 == 0).count()}));
+    }
 }
 
 macro_rules! numeric {
@@ -203,24 +207,36 @@ async fn pipeline<K: TKey, V: TVal>(rng: &mut Rng, comp: Comp, tier: &str, res: 
     let mut lens: Vec<usize> = vec![0, 1, 2, 7, 8, 100, PAGE - 60, PAGE - 52, PAGE - 44, PAGE, PAGE + 1, 2 * PAGE - 52, 3 * PAGE];
     lens.extend([max - 200, max - key_room, max - 52, max - 44, max - 36, max, max + 1, max + PAGE, 2 * max]);
     if tier == "thorough" {
-        for _ in 0..40 {
+        for _ in 0..300 {
             lens.push(rng.usize(max + 2 * PAGE));
         }
-        for d in 30..70 {
+        for d in 20..90 {
             lens.push(PAGE - d);
             lens.push(max - d);
         }
     } else {
-        for _ in 0..8 {
+        for _ in 0..40 {
             lens.push(rng.usize(max + PAGE));
+        }
+        for d in 40..60 {
+            lens.push(PAGE - d);
+            lens.push(max - d);
         }
     }
     let mut i = 0u64;
+    // (encoded key bytes, encoded value bytes) of everything inserted
+    let mut written: Vec<(Vec<u8>, Vec<u8>)> = vec![];
     for len in lens {
         for compressible in [false, true] {
             i += 1;
             let k = K::make(i);
             let v = V::make(rng, len, compressible);
+            {
+                let (mut kb, mut vb) = (vec![], vec![]);
+                k.encode(&mut kb).map_err(|e| e.to_string())?;
+                v.encode(&mut vb).map_err(|e| e.to_string())?;
+                written.push((kb, vb));
+            }
             let e = cache.insert(k.clone(), v.clone());
             drop(e);
             cache.storage().wait().await;
@@ -241,6 +257,9 @@ async fn pipeline<K: TKey, V: TVal>(rng: &mut Rng, comp: Comp, tier: &str, res: 
                         );
                     }
                     res.nontrivial_hashes.insert(fnv(format!("{}{}{len}{compressible}{comp:?}", K::name(), V::name()).as_bytes()));
+                    if res.samples.len() < 4 && len > 100 {
+                        res.sample(json!({"part":"pipeline","key_type":K::name(),"value_type":V::name(),"len":len,"compressible":compressible,"compression":format!("{comp:?}"),"raw_entry_bytes":raw,"loaded_equal":e.value() == &v}));
+                    }
                 }
                 Ok(None) => {
                     res.count("pipeline_rejected", 1);
@@ -262,6 +281,71 @@ async fn pipeline<K: TKey, V: TVal>(rng: &mut Rng, comp: Comp, tier: &str, res: 
         }
     }
     cache.close().await.map_err(|e| e.to_string())?;
+    // the recorded lengths equal the bytes actually written: read every entry back from the device files with the
+    // independent reader (header, checksum over value_len + key_len bytes, decompression) and compare with what the
+    // Code impls produce for the original key and value
+    let mut on_disk = 0u64;
+    for b in 0..64u32 {
+        let data = crate::image::read_partition(&dir.0, b);
+        let mut off = 0usize;
+        while off + blob_index <= data.len() {
+            let idx = &data[off..off + blob_index];
+            if crate::image::xxh64(&idx[8..]) != u64::from_be_bytes(idx[..8].try_into().unwrap()) {
+                break;
+            }
+            let count = u32::from_be_bytes(idx[8..12].try_into().unwrap()) as usize;
+            if count == 0 {
+                break;
+            }
+            let mut step = 0usize;
+            for i in 0..count {
+                let e = &idx[12 + i * 24..];
+                let eoff = u32::from_be_bytes(e[16..20].try_into().unwrap()) as usize;
+                let elen = u32::from_be_bytes(e[20..24].try_into().unwrap()) as usize;
+                step = eoff + elen.div_ceil(PAGE) * PAGE;
+                if off + eoff + elen > data.len() {
+                    res.violate(format!("C08:image:entry-crosses-block:{}", V::name()), format!("block {b} entry {i} region {eoff}+{elen}"), json!({"check":"c08"}));
+                    continue;
+                }
+                let region = &data[off + eoff..off + eoff + elen];
+                let key_len = u32::from_be_bytes(region[0..4].try_into().unwrap()) as usize;
+                let value_len = u32::from_be_bytes(region[4..8].try_into().unwrap()) as usize;
+                res.count("image_entries_checked", 1);
+                on_disk += 1;
+                if 36 + key_len + value_len != elen {
+                    res.violate(
+                        format!("C08:image:recorded-lengths-disagree:{}:{comp:?}", V::name()),
+                        format!("block {b} entry {i}: header key_len {key_len} + value_len {value_len} + 36 != indexed length {elen}"),
+                        json!({"check":"c08","part":"pipeline","value_type":V::name()}),
+                    );
+                    continue;
+                }
+                match crate::image::decode_entry_raw(region) {
+                    Err(why) => res.violate(
+                        format!("C08:image:entry-unreadable:{}:{comp:?}", V::name()),
+                        format!("block {b} entry {i} ({elen} bytes) does not decode with the independent reader: {why}"),
+                        json!({"check":"c08","part":"pipeline","value_type":V::name()}),
+                    ),
+                    Ok((_h, _s, kb, vb)) => match written.iter().find(|(k, _)| *k == kb) {
+                        None => res.violate(format!("C08:image:unknown-key-bytes:{}", K::name()), format!("block {b} entry {i}: key bytes {:?} were never written", &kb[..kb.len().min(24)]), json!({"check":"c08"})),
+                        Some((_, want)) => {
+                            if *want != vb {
+                                res.violate(
+                                    format!("C08:image:value-bytes-differ:{}:{comp:?}", V::name()),
+                                    format!("block {b} entry {i}: decoded value encoding has {} bytes, the original encodes to {} bytes", vb.len(), want.len()),
+                                    json!({"check":"c08","part":"pipeline","value_type":V::name()}),
+                                );
+                            }
+                        }
+                    },
+                }
+            }
+            off += step.max(blob_index);
+        }
+    }
+    if on_disk == 0 {
+        return Err("no entry found on the device by the independent reader".into());
+    }
     Ok(())
 }
 
